@@ -1041,7 +1041,7 @@ func (c *Compiler) compileCall(node *ast.Call) error {
 		return err
 	}
 	for _, arg := range args {
-		if err := c.compile(arg); err != nil {
+		if err := c.compileArgument(arg); err != nil {
 			return err
 		}
 	}
@@ -1051,6 +1051,17 @@ func (c *Compiler) compileCall(node *ast.Call) error {
 		c.emit(op.Call, uint16(argc))
 	}
 	return nil
+}
+
+// compileArgument compiles one argument of a call. An argument is a value:
+// the parser also takes statements in that place (f(x = 5), a loop, an
+// import), which push nothing - the call would then take its operands from
+// whatever lies below on the stack.
+func (c *Compiler) compileArgument(arg ast.Node) error {
+	if _, ok := arg.(ast.Expression); !ok {
+		return c.formatError("invalid call argument: expected an expression", arg.Token().StartPosition)
+	}
+	return c.compile(arg)
 }
 
 func (c *Compiler) compileObjectCall(node *ast.ObjectCall) error {
@@ -1075,7 +1086,7 @@ func (c *Compiler) compileObjectCall(node *ast.ObjectCall) error {
 		return fmt.Errorf("compile error: max args limit of %d exceeded (got %d)", MaxArgs, argc)
 	}
 	for _, arg := range args {
-		if err := c.compile(arg); err != nil {
+		if err := c.compileArgument(arg); err != nil {
 			return err
 		}
 	}
@@ -2138,7 +2149,7 @@ func (c *Compiler) compilePartial(call *ast.Call) error {
 		return err
 	}
 	for _, arg := range args {
-		if err := c.compile(arg); err != nil {
+		if err := c.compileArgument(arg); err != nil {
 			return err
 		}
 	}
@@ -2163,7 +2174,7 @@ func (c *Compiler) compilePartialObjectCall(node *ast.ObjectCall) error {
 		return fmt.Errorf("compile error: max args limit of %d exceeded (got %d)", MaxArgs, argc)
 	}
 	for _, arg := range args {
-		if err := c.compile(arg); err != nil {
+		if err := c.compileArgument(arg); err != nil {
 			return err
 		}
 	}
